@@ -18,6 +18,8 @@ InvRender == /\ Len(Render(Inst(z, 0))) = 15
              /\ LexLess(Render(Inst(z, 86399)), Render(Inst(z + 1, 0)))
              /\ LexLess(Render(Inst(z, 3599)), Render(Inst(z, 3600)))
              /\ Render(AddSec(Inst(z, 86399), 1)) = Render(Inst(z + 1, 0))
+InvParse == /\ ParseInst(Render(Inst(z, 86399))) = [ok |-> TRUE, i |-> Inst(z, 86399)]
+            /\ ParseInst(Render(Inst(z, 3600))) = [ok |-> TRUE, i |-> Inst(z, 3600)]
 InvEpoch == (z = 0) = (date = Date(1970, 1, 1))
 W_LeapDay == ~(date.m = 2 /\ date.d = 29)
 W_CenturyNonLeap == ~(date.y % 100 = 0 /\ date.m = 3 /\ date.d = 1 /\ ~IsLeap(date.y))
